@@ -18,6 +18,8 @@ def main():
     prop, seed_dir, k = sys.argv[1:4]
     extra = sys.argv[4:]
     patch = os.path.join(seed_dir, f"patch_{k}.diff")
+    if not os.path.exists(patch):
+        patch = os.path.join(seed_dir, f"{k}.diff")
     demo = os.path.join(seed_dir, f"demo_{k}.py")
     notes = os.path.join(seed_dir, f"notes_{k}.md")
     env = dict(os.environ, PYTHONPATH="/repo/src")
